@@ -96,10 +96,21 @@ impl<T: Sample> Any<T> {
         each!(self, r => Resampler::nbr_channels(r))
     }
     pub fn set_resample_ratio(&mut self, v: f64, ramp: bool) -> ResampleResult<()> {
-        each!(self, r => Resampler::set_resample_ratio(r, v, ramp))
+        if ramp {
+            each!(self, r => rubato::VecResampler::set_resample_ratio(r, v, ramp))
+        } else {
+            each!(self, r => Resampler::set_resample_ratio(r, v, ramp))
+        }
     }
+    /// Ramped requests go through the object-safe wrapper trait (`VecResampler`, what a
+    /// `Box<dyn VecResampler<T>>` calls), the others through `Resampler` directly: both public
+    /// entry points of the setters are exercised by every history that changes the ratio.
     pub fn set_resample_ratio_relative(&mut self, v: f64, ramp: bool) -> ResampleResult<()> {
-        each!(self, r => Resampler::set_resample_ratio_relative(r, v, ramp))
+        if ramp {
+            each!(self, r => rubato::VecResampler::set_resample_ratio_relative(r, v, ramp))
+        } else {
+            each!(self, r => Resampler::set_resample_ratio_relative(r, v, ramp))
+        }
     }
     pub fn reset(&mut self) {
         each!(self, r => Resampler::reset(r))
